@@ -3,12 +3,16 @@
 
    Layers:
      1. `prog`: a tiny probabilistic-program monad.  `run` feeds it a scripted stream of uniforms
-        (what the harness makes numpy.random.rand return), `dist` computes exact expectations.
+        (what the harness makes numpy.random.rand return), `dist` computes exact expectations,
+        `all_out` / `all_pos` quantify over all / all positive-probability outcomes.
      2. the tree doubling written once over an abstract state type S (Section Tree): BuildTree,
-        the doubling loop with its top-level acceptance, exactly the control flow of the code.
+        one iteration of the doubling loop with its top-level acceptance, the loop -- exactly the
+        control flow of the code (both files have the same control flow; they differ in the
+        non-finite guard of the top-level acceptance, parameter `guard`).
      3. the leapfrog integrator over an abstract commutative ring (Section Leap).
      4. instances: S = Z (an orbit abstraction: position along the leapfrog orbit) used by the
-        theorems, and S = concrete phase-space states over Qc used by the correspondence. *)
+        theorems, and S = concrete phase-space states over Qc used by the correspondence.
+     5. the step-size schedule of the experimental sampler (which value is used by which step). *)
 From CV Require Import Base.Tac Base.Cmp Base.Ext Base.LinAlg Base.QcLin.
 From Coq Require Import QArith Qcanon Qabs Qminmax.
 
@@ -28,6 +32,8 @@ Fixpoint bind {A B} (m : prog A) (f : A -> prog B) : prog B :=
   | Flip st p k => Flip st p (fun b => bind (k b) f)
   end.
 
+Definition decide (st : bool) (p u : Q) : bool := if st then negb (Qle_bool p u) else Qle_bool u p.
+
 (* scripted run: consumes uniforms in order, logs every decision as (strict, p, u) *)
 Fixpoint run {A} (m : prog A) (us : list Q) (log : list (bool * Q * Q)) : option (A * list Q * list (bool * Q * Q)) :=
   match m with
@@ -35,23 +41,35 @@ Fixpoint run {A} (m : prog A) (us : list Q) (log : list (bool * Q * Q)) : option
   | Flip st p k =>
       match us with
       | [] => None
-      | u :: us' => run (k (if st then negb (Qle_bool p u) else Qle_bool u p)) us' (log ++ [(st, p, u)])
+      | u :: us' => run (k (decide st p u)) us' (log ++ [(st, p, u)])
       end
   end.
 
-(* exact expectation of f under the program's law (each Flip is Bernoulli(p), p clipped by the
-   caller into [0,1]) *)
+(* exact expectation of f under the program's law (each Flip is Bernoulli(p)) *)
 Fixpoint dist {A} (m : prog A) (f : A -> Q) : Q :=
   match m with
   | Ret a => f a
   | Flip _ p k => p * dist (k true) f + (1 - p) * dist (k false) f
   end.
 
-(* a property of every possible outcome *)
+(* a property of every outcome / of every outcome of positive probability *)
 Fixpoint all_out {A} (P : A -> Prop) (m : prog A) : Prop :=
   match m with
   | Ret a => P a
   | Flip _ _ k => all_out P (k true) /\ all_out P (k false)
+  end.
+
+Fixpoint all_pos {A} (P : A -> Prop) (m : prog A) : Prop :=
+  match m with
+  | Ret a => P a
+  | Flip _ p k => (0 < p -> all_pos P (k true)) /\ (p < 1 -> all_pos P (k false))
+  end.
+
+(* every Flip probability lies in [0,1] *)
+Fixpoint wf_prog {A} (m : prog A) : Prop :=
+  match m with
+  | Ret _ => True
+  | Flip _ p k => 0 <= p <= 1 /\ wf_prog (k true) /\ wf_prog (k false)
   end.
 
 (* ------------------------------------------------------------------------------------------ *)
@@ -63,6 +81,7 @@ Variable leap : bool -> S -> S.      (* one leapfrog step; true = direction v = 
 Variable ham : S -> ext.             (* logd(x) - r.r/2 of a state *)
 Variable lgd : S -> ext.             (* cached target log-density of a state *)
 Variable uturn_ok : S -> S -> bool.  (* uturn_ok minus plus = ((x+ - x-).r- >= 0) && ((x+ - x-).r+ >= 0) *)
+Variable alpha : S -> Q.             (* Metropolis probability of a leaf: 1 if H' > H0 else exp(H' - H0) *)
 Variable logu : ext.                 (* slice variable  log u = H0 - Exp(1) *)
 
 Definition delta_max : ext := Fin 1000.
@@ -72,19 +91,21 @@ Record tree := mkT {
   t_sel : S;                         (* the candidate carried upwards (point', logd', grad') *)
   t_n : Z;                           (* n' *)
   t_ok : bool;                       (* s' = 1 *)
-  t_leaves : list S;                 (* every state produced by a leapfrog step, in build order *)
-  t_tests : list (S * S) }.          (* every (minus, plus) pair the U-turn test was applied to *)
+  t_asum : Q; t_an : Z;              (* alpha', n_alpha' *)
+  t_leaves : list S;                 (* ghost: every state produced by a leapfrog step, in build order *)
+  t_tests : list (S * S) }.          (* ghost: every (minus, plus) pair the U-turn test was applied to *)
 
 Definition in_slice (s : S) : bool := ext_le logu (ham s).
 Definition not_diverged (s : S) : bool := ext_lt logu (ext_add delta_max (ham s)).
 
+(* alpha2 = n'' / max(1, n' + n'') *)
 Definition swap_prob (n1 n2 : Z) : Q := inject_Z n2 / inject_Z (Z.max 1 (n1 + n2)).
 
 Fixpoint build (s : S) (v : bool) (j : nat) : prog tree :=
   match j with
   | O =>
       let s' := leap v s in
-      Ret (mkT s' s' s' (if in_slice s' then 1 else 0) (not_diverged s') [s'] [])
+      Ret (mkT s' s' s' (if in_slice s' then 1 else 0) (not_diverged s') (alpha s') 1 [s'] [])
   | Datatypes.S j' =>
       bind (build s v j') (fun t1 =>
         if t_ok t1 then
@@ -94,6 +115,7 @@ Fixpoint build (s : S) (v : bool) (j : nat) : prog tree :=
             Flip false (swap_prob (t_n t1) (t_n t2)) (fun b =>
               Ret (mkT mn pl (if b then t_sel t2 else t_sel t1) (t_n t1 + t_n t2)
                        (t_ok t2 && uturn_ok mn pl)
+                       (t_asum t1 + t_asum t2) (t_an t1 + t_an t2)
                        (t_leaves t1 ++ t_leaves t2)
                        (t_tests t1 ++ t_tests t2 ++ [(mn, pl)]))))
         else Ret t1)
@@ -104,45 +126,57 @@ Record top := mkTop {
   p_cur : S;                         (* current_point / logd / grad  (theta[:,k], joint_eval[k], grad) *)
   p_minus : S; p_plus : S;
   p_n : Z; p_s : bool; p_j : nat; p_acc : bool;
-  p_last : list S;                   (* leaves of the last doubling (for the acceptance statistic) *)
-  p_leaves : list S;                 (* all leaves, in build order *)
+  p_asum : Q; p_an : Z;              (* alpha, n_alpha of the last doubling: the statistic is their quotient *)
+  p_last : list S;                   (* ghost: leaves of the last doubling *)
+  p_leaves : list S;                 (* ghost: all leaves, in build order *)
   p_tests : list (S * S) }.
 
 Definition finite_logd (s : S) : bool := negb (is_nan (lgd s)) && negb (is_inf (lgd s)).
+(* alpha2 = min(1, n'/n) *)
 Definition acc_prob (n' n : Z) : Q := Qmin 1 (inject_Z n' / inject_Z n).
 
-(* guard = true: cuqi.experimental.mcmc (refuses NaN / inf candidates); false: cuqi.sampler *)
+(* what the loop state becomes once the new sub-tree t (built in direction v) is there and the
+   top-level Metropolis decision was a *)
+Definition top_update (st : top) (v : bool) (t : tree) (a : bool) : top :=
+  let mn := if v then p_minus st else t_minus t in
+  let pl := if v then t_plus t else p_plus st in
+  mkTop (if a then t_sel t else p_cur st) mn pl (p_n st + t_n t)
+        (t_ok t && uturn_ok mn pl) (Datatypes.S (p_j st)) (p_acc st || a)
+        (t_asum t) (t_an t)
+        (t_leaves t) (p_leaves st ++ t_leaves t) (p_tests st ++ t_tests t ++ [(mn, pl)]).
+
+(* one iteration of `while (s == 1) and (j <= max_depth)`.
+   guard = true: cuqi.experimental.mcmc (refuses NaN / inf candidates); false: cuqi.sampler.
+   `(s_prime == 1) and (rand() <= alpha2) and ...` short-circuits: no uniform is drawn if s' = 0 *)
+Definition doubling (guard : bool) (st : top) : prog top :=
+  Flip true (1 # 2) (fun v =>
+    bind (build (if v then p_plus st else p_minus st) v (p_j st)) (fun t =>
+      if t_ok t then
+        Flip false (acc_prob (t_n t) (p_n st)) (fun b =>
+          Ret (top_update st v t (b && (if guard then finite_logd (t_sel t) else true))))
+      else Ret (top_update st v t false))).
+
 Fixpoint doublings (guard : bool) (k : nat) (st : top) : prog top :=
   match k with
   | O => Ret st
   | Datatypes.S k' =>
-      if negb (p_s st) then Ret st else
-      Flip true (1 # 2) (fun v =>
-        bind (build (if v then p_plus st else p_minus st) v (p_j st)) (fun t =>
-          let mn := if v then p_minus st else t_minus t in
-          let pl := if v then t_plus t else p_plus st in
-          let next (a : bool) :=
-            doublings guard k'
-              (mkTop (if a then t_sel t else p_cur st) mn pl (p_n st + t_n t)
-                     (t_ok t && uturn_ok mn pl) (Datatypes.S (p_j st)) (p_acc st || a)
-                     (t_leaves t) (p_leaves st ++ t_leaves t) (p_tests st ++ t_tests t ++ [(mn, pl)])) in
-          if t_ok t then
-            Flip false (acc_prob (t_n t) (p_n st)) (fun b =>
-              next (b && (if guard then finite_logd (t_sel t) else true)))
-          else next false))
+      if negb (p_s st) then Ret st else bind (doubling guard st) (doublings guard k')
   end.
+
+Definition top_init (s0 : S) : top := mkTop s0 s0 s0 1 true 0 false 0 0 [] [] [].
 
 (* one transition from state s0 (momentum already drawn):  while s == 1 and j <= max_depth *)
 Definition transition (guard : bool) (max_depth : nat) (s0 : S) : prog top :=
-  doublings guard (Datatypes.S max_depth) (mkTop s0 s0 s0 1 true 0 false [] [] []).
+  doublings guard (Datatypes.S max_depth) (top_init s0).
 
 End Tree.
 
 Arguments mkT {S}. Arguments t_minus {S}. Arguments t_plus {S}. Arguments t_sel {S}. Arguments t_n {S}.
-Arguments t_ok {S}. Arguments t_leaves {S}. Arguments t_tests {S}.
+Arguments t_ok {S}. Arguments t_asum {S}. Arguments t_an {S}. Arguments t_leaves {S}. Arguments t_tests {S}.
 Arguments mkTop {S}. Arguments p_cur {S}. Arguments p_minus {S}. Arguments p_plus {S}. Arguments p_n {S}.
-Arguments p_s {S}. Arguments p_j {S}. Arguments p_acc {S}. Arguments p_last {S}. Arguments p_leaves {S}.
-Arguments p_tests {S}.
+Arguments p_s {S}. Arguments p_j {S}. Arguments p_acc {S}. Arguments p_asum {S}. Arguments p_an {S}.
+Arguments p_last {S}. Arguments p_leaves {S}. Arguments p_tests {S}.
+Arguments top_init {S}. Arguments top_update {S}.
 
 (* ------------------------------------------------------------------------------------------ *)
 (* 3. leapfrog over a commutative ring                                                        *)
@@ -154,6 +188,12 @@ Variable grad : list R -> list R.
 
 Record ps := mkPS { ps_x : list R; ps_r : list R; ps_g : list R }.   (* g = cached gradient at x *)
 
+(* the three shears the integrator is composed of (kick uses the gradient passed in / returned,
+   as the code does: the gradient at the new point is computed once and cached) *)
+Definition kick (h : R) (s : ps) : ps := mkPS (ps_x s) (vadd radd (ps_r s) (vscale rmul h (ps_g s))) (ps_g s).
+Definition drift (e : R) (s : ps) : ps :=
+  let x1 := vadd radd (ps_x s) (vscale rmul e (ps_r s)) in mkPS x1 (ps_r s) (grad x1).
+
 (* _Leapfrog(point, r, grad, eps) with h = eps/2 (so eps = h + h):
      r1 = r + h*g ; x1 = x + (h+h)*r1 ; g1 = grad x1 ; r2 = r1 + h*g1 *)
 Definition leapfrog (h : R) (s : ps) : ps :=
@@ -163,7 +203,7 @@ Definition leapfrog (h : R) (s : ps) : ps :=
   mkPS x1 (vadd radd r1 (vscale rmul h g1)) g1.
 End Leap.
 Arguments mkPS {R}. Arguments ps_x {R}. Arguments ps_r {R}. Arguments ps_g {R}.
-Arguments leapfrog {R}.
+Arguments leapfrog {R}. Arguments kick {R}. Arguments drift {R}.
 
 (* ------------------------------------------------------------------------------------------ *)
 (* 4a. the orbit abstraction: S = Z                                                           *)
@@ -172,19 +212,22 @@ Section Orbit.
 Variable H : Z -> ext.               (* Hamiltonian at orbit position i *)
 Variable L : Z -> ext.               (* target log-density at orbit position i *)
 Variable U : Z -> Z -> bool.         (* U-turn test passes for end points (minus, plus) *)
+Variable A : Z -> Q.                 (* Metropolis probability of position i *)
 Variable logu : ext.
 Definition zleap (v : bool) (i : Z) : Z := if v then (i + 1)%Z else (i - 1)%Z.
-Definition obuild := build Z zleap H U logu.
-Definition otransition guard md := transition Z zleap H L U logu guard md 0%Z.
+Definition obuild := build Z zleap H U A logu.
+Definition odoubling := doubling Z zleap H L U A logu.
+Definition otransition guard md (i0 : Z) := transition Z zleap H L U A logu guard md i0.
 End Orbit.
 
 (* ------------------------------------------------------------------------------------------ *)
 (* 4b. concrete phase space over Qc with the targets used by the correspondence               *)
 (* ------------------------------------------------------------------------------------------ *)
-(* targets: log-density (ext: may be NaN / -inf outside a box) and gradient (always finite) *)
+(* targets: log-density (ext: may be NaN / -inf / +inf outside a box) and gradient (always finite) *)
 Inductive target :=
 | TGauss (prec : list Qc)                       (* logd = -1/2 sum p_i x_i^2 , grad = -p_i x_i *)
 | TQuartic                                      (* logd = -1/4 sum x_i^4   , grad = -x_i^3 *)
+| TSplit (pl pr : list Qc)                      (* two-piece normal: precision pl_i for x_i < 0, pr_i for x_i >= 0 *)
 | TBox (prec : list Qc) (bound : Qc) (bad : ext). (* Gaussian inside max|x_i| <= bound, `bad` outside *)
 
 Definition half : Qc := qc (1 # 2).
@@ -193,21 +236,32 @@ Definition quarter : Qc := qc (1 # 4).
 Fixpoint vmul (x y : list Qc) : list Qc :=
   match x, y with a :: x', b :: y' => (a * b)%Qc :: vmul x' y' | _, _ => [] end.
 
+(* side-dependent precision: where(x < 0, pl, pr) *)
+Fixpoint vside (pl pr x : list Qc) : list Qc :=
+  match pl, pr, x with
+  | a :: pl', b :: pr', c :: x' => (if Qle_bool 0 (this c) then b else a) :: vside pl' pr' x'
+  | _, _, _ => []
+  end.
+
 Definition qsumc (x : list Qc) : Qc := fold_right Qcplus 0%Qc x.
 Definition inbox (b : Qc) (x : list Qc) : bool :=
   forallb (fun a => Qle_bool (this a) (this b) && Qle_bool (- this b) (this a)) x.
 
+Definition gauss_logd (p x : list Qc) : ext := Fin (this (- (half * qsumc (vmul p (vmul x x))))%Qc).
+
 Definition t_logd (t : target) (x : list Qc) : ext :=
   match t with
-  | TGauss p => Fin (this (- (half * qsumc (vmul p (vmul x x))))%Qc)
+  | TGauss p => gauss_logd p x
   | TQuartic => Fin (this (- (quarter * qsumc (vmul (vmul x x) (vmul x x))))%Qc)
-  | TBox p b bad => if inbox b x then Fin (this (- (half * qsumc (vmul p (vmul x x))))%Qc) else bad
+  | TSplit pl pr => gauss_logd (vside pl pr x) x
+  | TBox p b bad => if inbox b x then gauss_logd p x else bad
   end.
 
 Definition t_grad (t : target) (x : list Qc) : list Qc :=
   match t with
   | TGauss p => qvneg (vmul p x)
   | TQuartic => qvneg (vmul x (vmul x x))
+  | TSplit pl pr => qvneg (vmul (vside pl pr x) x)
   | TBox p b bad => qvneg (vmul p x)
   end.
 
@@ -215,24 +269,69 @@ Definition cstate := ps Qc.
 Definition c_leap (t : target) (heps : Qc) (v : bool) (s : cstate) : cstate :=
   leapfrog Qcplus Qcmult (t_grad t) (if v then heps else (- heps)%Qc) s.
 Definition c_lgd (t : target) (s : cstate) : ext := t_logd t (ps_x s).
-Definition c_ham (t : target) (s : cstate) : ext :=
-  ext_sub (c_lgd t s) (Fin (this (half * qdot (ps_r s) (ps_r s))%Qc)).
+Definition c_kin (s : cstate) : Q := this (half * qdot (ps_r s) (ps_r s))%Qc.
+Definition c_ham (t : target) (s : cstate) : ext := ext_sub (c_lgd t s) (Fin (c_kin s)).
 Definition c_uturn_ok (mn pl : cstate) : bool :=
   let d := qvsub (ps_x pl) (ps_x mn) in
   Qle_bool 0 (this (qdot d (ps_r mn))) && Qle_bool 0 (this (qdot d (ps_r pl))).
 
 (* one full transition as the code performs it: x current point, z the momentum draw,
-   e the Exp(1) draw, us the uniforms in the order numpy.random.rand is called *)
+   e the Exp(1) draw, us the uniforms in the order numpy.random.rand is called.
+   (The Metropolis probabilities alpha of the leaves are transcendental; the statistic is tied to
+    the code through the leaves of the last doubling, see check_transition, so alpha = 0 here.) *)
 Definition c_init (t : target) (x z : list Qc) : cstate := mkPS x z (t_grad t x).
 
 Definition c_transition (t : target) (guard : bool) (max_depth : nat) (heps : Qc) (x z : list Qc) (e : Q)
   : prog (top cstate) :=
   let s0 := c_init t x z in
   let logu := ext_sub (c_ham t s0) (Fin e) in
-  transition cstate (c_leap t heps) (c_ham t) (c_lgd t) c_uturn_ok logu guard max_depth s0.
+  transition cstate (c_leap t heps) (c_ham t) (c_lgd t) c_uturn_ok (fun _ => 0) logu guard max_depth s0.
 
 (* ------------------------------------------------------------------------------------------ *)
-(* 5. checker for the generated case files                                                    *)
+(* 5. which step size a step uses (cuqi.experimental.mcmc.NUTS: step / tune / _pre_warmup /   *)
+(*    _pre_sample).  The dual-averaging formulas are transcendental: what tune() computes is    *)
+(*    carried by the event.                                                                     *)
+(* ------------------------------------------------------------------------------------------ *)
+Section Schedule.
+Variable E : Type.                                     (* step sizes *)
+
+Record sched := mkSched { sc_eps : E; sc_bar : option E }.   (* _epsilon, _epsilon_bar (None = "unset") *)
+
+Inductive ev :=
+| EvPreWarmup (one : E)          (* _pre_warmup: epsilon_bar = 1 if unset *)
+| EvPreSample                    (* _pre_sample: epsilon_bar = epsilon if unset *)
+| EvStep                         (* step(): uses _epsilon, then _epsilon = _epsilon_bar *)
+| EvTune (e' b' : E).            (* tune(): _epsilon = e', _epsilon_bar = b' (dual averaging) *)
+
+(* returns the new schedule state and, for a step, the step size that step used; a step before any
+   _pre_* call leaves epsilon_bar = "unset" in _epsilon -- outside the domain: None *)
+Definition sched_ev (s : sched) (e : ev) : option (sched * option E) :=
+  match e with
+  | EvPreWarmup one => Some (mkSched (sc_eps s) (Some (match sc_bar s with Some b => b | None => one end)), None)
+  | EvPreSample => Some (mkSched (sc_eps s) (Some (match sc_bar s with Some b => b | None => sc_eps s end)), None)
+  | EvStep => match sc_bar s with Some b => Some (mkSched b (Some b), Some (sc_eps s)) | None => None end
+  | EvTune e' b' => match sc_bar s with Some _ => Some (mkSched e' (Some b'), None) | None => None end
+  end.
+
+Fixpoint sched_run (s : sched) (es : list ev) : option (sched * list E) :=
+  match es with
+  | [] => Some (s, [])
+  | e :: r => match sched_ev s e with
+              | None => None
+              | Some (s1, o) =>
+                  match sched_run s1 r with
+                  | None => None
+                  | Some (s2, l) => Some (s2, match o with Some x => x :: l | None => l end)
+                  end
+              end
+  end.
+End Schedule.
+Arguments mkSched {E}. Arguments sc_eps {E}. Arguments sc_bar {E}.
+Arguments EvPreWarmup {E}. Arguments EvPreSample {E}. Arguments EvStep {E}. Arguments EvTune {E}.
+Arguments sched_ev {E}. Arguments sched_run {E}.
+
+(* ------------------------------------------------------------------------------------------ *)
+(* 6. checkers for the generated case files                                                   *)
 (* ------------------------------------------------------------------------------------------ *)
 (* observed leaf: (x, r, logd) as produced by the implementation's _Leapfrog, in call order *)
 Definition obs_leaf := (list Q * list Q * ext)%type.
@@ -247,21 +346,33 @@ Definition leaf_close (t : target) (o : obs_leaf) (s : cstate) : bool :=
   let '(x, r, l) := o in
   ql_close tol9 x (map this (ps_x s)) && ql_close tol9 r (map this (ps_r s)) && ext_close tol9 l (c_lgd t s).
 
-(* margins: every comparison the model made is decided by more than `eps` (so float rounding in
-   the implementation cannot flip it); otherwise the case is inconclusive and counted as such *)
-Definition far (eps : Q) (a b : Q) : bool := negb (Qle_bool (Qabs (a - b)) eps).
-Definition ext_far (eps : Q) (a b : ext) : bool :=
-  match a, b with Fin x, Fin y => far eps x y | _, _ => true end.
+(* margins: every comparison the model made is decided by more than `marg` relative to the size of the
+   numbers compared (so float rounding in the implementation cannot flip it); otherwise the case is
+   inconclusive and counted as such *)
+Definition far_sc (eps sc : Q) (a b : Q) : bool := negb (Qle_bool (Qabs (a - b)) (eps * (1 + Qabs a + Qabs b + sc))).
+Definition far (eps : Q) (a b : Q) : bool := far_sc eps 0 a b.
+Definition ext_far_sc (eps sc : Q) (a b : ext) : bool :=
+  match a, b with Fin x, Fin y => far_sc eps sc x y | _, _ => true end.
 Definition marg : Q := 1 # 10000000.
 
+(* the size of the terms a U-turn inner product is summed from, for its margin *)
+Definition qabsdot (x y : list Qc) : Q :=
+  fold_right Qplus 0 (map (fun ab => Qabs (this (fst ab)) * Qabs (this (snd ab))) (combine x y)).
+Definition dot_far (d r : list Qc) : bool :=
+  negb (Qle_bool (Qabs (this (qdot d r))) (marg * (1 + qabsdot d r))).
+
 Definition margins_ok (t : target) (logu : ext) (tp : top cstate) (log : list (bool * Q * Q)) : bool :=
-  forallb (fun s => ext_far marg logu (c_ham t s) && ext_far marg logu (ext_add (Fin 1000) (c_ham t s))) (p_leaves tp) &&
+  forallb (fun s => let sc := (match c_lgd t s with Fin l => Qabs l | _ => 0 end) + c_kin s in
+                    ext_far_sc marg sc logu (c_ham t s) && ext_far_sc marg sc logu (ext_add (Fin 1000) (c_ham t s))) (p_leaves tp) &&
   forallb (fun mp => let d := qvsub (ps_x (snd mp)) (ps_x (fst mp)) in
-                     far marg 0 (this (qdot d (ps_r (fst mp)))) && far marg 0 (this (qdot d (ps_r (snd mp))))) (p_tests tp) &&
+                     dot_far d (ps_r (fst mp)) && dot_far d (ps_r (snd mp))) (p_tests tp) &&
   forallb (fun d => let '(_, p, u) := d in far marg p u) log.
 
 (* result of a check: 0 = agreement, 1 = inconclusive (a margin too small or stream too short), 2 = disagreement *)
-Definition check_transition (t : target) (guard : bool) (max_depth : nat) (heps : Qc) (x z : list Q) (e : Q)
+(* exact = true: the harness has verified that the implementation's arithmetic was exact on this case
+   (all leaves equal their exact rational values), so ties (log u = H, p = u, inner product = 0) are
+   meaningful and the margins are waived *)
+Definition check_transition (exact : bool) (t : target) (guard : bool) (max_depth : nat) (heps : Qc) (x z : list Q) (e : Q)
            (us : list Q)
            (o_leaves : list obs_leaf) (o_point : list Q) (o_logd : ext) (o_grad : option (list Q))
            (o_acc : option bool) (o_nrand : nat) (o_nlast : nat) : nat :=
@@ -271,7 +382,7 @@ Definition check_transition (t : target) (guard : bool) (max_depth : nat) (heps 
   | Some (tp, rest, log) =>
       let s0 := c_init t xq zq in
       let logu := ext_sub (c_ham t s0) (Fin e) in
-      if negb (margins_ok t logu tp log) then 1%nat
+      if negb exact && negb (margins_ok t logu tp log) then 1%nat
       else if (length o_leaves =? length (p_leaves tp))%nat
               && forallb (fun os => leaf_close t (fst os) (snd os)) (combine o_leaves (p_leaves tp))
               && ql_close tol9 o_point (map this (ps_x (p_cur tp)))
@@ -279,7 +390,18 @@ Definition check_transition (t : target) (guard : bool) (max_depth : nat) (heps 
               && match o_grad with Some g => ql_close tol9 g (map this (ps_g (p_cur tp))) | None => true end
               && match o_acc with Some a => Bool.eqb a (p_acc tp) | None => true end
               && (o_nrand =? length log)%nat && (o_nlast =? length (p_last tp))%nat
+              && (Z.of_nat o_nlast =? p_an tp)%Z
          then 0%nat else 2%nat
   end.
 
 Definition check_ok (r : nat) : bool := negb (r =? 2)%nat.
+Definition check_conclusive (r : nat) : bool := (r =? 0)%nat.
+
+(* step-size schedule: the step sizes the steps of the implementation used (epsilon_list) vs the model's,
+   tune()'s outputs being supplied by the implementation *)
+Definition check_schedule (eps0 : Q) (es : list (ev Q)) (used : list Q) (final_eps final_bar : Q) : bool :=
+  match sched_run (mkSched eps0 None) es with
+  | Some (s, l) => ql_eqb l used && Qeq_bool (sc_eps s) final_eps
+                   && match sc_bar s with Some b => Qeq_bool b final_bar | None => false end
+  | None => false
+  end.
